@@ -201,6 +201,14 @@ def check(fb, ctx):
     ep = fb.hir_of(E + "::Expression::print")
     arrow = [f for f in fmt_nodes(ep["body"]) if any(isinstance(p, str) and "->" in p for p in f["pieces"])]
     ctx.check(len(arrow) == 1 and "->" in tags, "TOKENS", "closures print as `$p -> body`, the form all/any parse", "TOKENS|closure", "no `->` in the closure printer or in the grammar", f"{ep['file']}:{ep['line']}")
+    # ---- SIBLING: the block accessors behind print_block_source
+    from props import tablesym
+    tablesym.block_accessor_rules(fb, ctx)
+    # ---- POPORDER: the printer pops the right operand first, like the evaluator
+    po = hirq.pop_order(ep, r"expression::Binary::print$")
+    ctx.floor("binary prints fed from two stack pops", len(po), 1)
+    for n_, (ln, v) in enumerate(po):
+        ctx.check(v == "ok", "POPORDER", "Expression::print hands (second pop, first pop) to Binary::print as (left, right)", f"POPORDER|print|{n_}", f"operands taken from the stack are passed as {v}: `a - b` would print as `b - a`", f"{ep['file']}:{ln}")
     # ---- FIELDS: the printed program and the loaded program carry the same parts (facts, rules, checks, block scopes, policies)
     def fields_of(fn, ty_regex):
         h = fb.hir_of(fn)
